@@ -59,8 +59,13 @@ fn send(method: &str, path: &str, wire_q: &str, headers: Vec<(String, String)>) 
 }
 
 fn send_body(method: &str, path: &str, wire_q: &str, headers: Vec<(String, String)>, body: Vec<u8>) -> (u16, Vec<String>, String) {
+    send_body_framed(method, path, wire_q, headers, body, 7)
+}
+
+fn send_body_framed(method: &str, path: &str, wire_q: &str, headers: Vec<(String, String)>, body: Vec<u8>, frame: usize) -> (u16, Vec<String>, String) {
     let rec = crate::service::Recorder::default();
     let log = rec.log.clone();
+    let inputs_handle = rec.inputs.clone();
     let mut b = s3s::service::S3ServiceBuilder::new(rec);
     b.set_auth(s3s::auth::SimpleAuth::from_single(AK, SK));
     let svc = b.build();
@@ -68,7 +73,7 @@ fn send_body(method: &str, path: &str, wire_q: &str, headers: Vec<(String, Strin
     let mut rb = http::Request::builder().method(method).uri(uri);
     for (n, v) in &headers { rb = rb.header(n.as_str(), v.as_str()); }
     // the body is handed over as a STREAM of small frames (not a buffered body), as a transport would
-    let frames: Vec<Result<bytes::Bytes, std::io::Error>> = body.chunks(7).map(|c| Ok(bytes::Bytes::copy_from_slice(c))).collect();
+    let frames: Vec<Result<bytes::Bytes, std::io::Error>> = body.chunks(frame).map(|c| Ok(bytes::Bytes::copy_from_slice(c))).collect();
     let stream = futures::stream::iter(frames);
     let sbody = if body.is_empty() { s3s::Body::empty() } else { s3s::Body::from(s3s::dto::StreamingBlob::wrap(stream)) };
     let req = rb.body(sbody).unwrap();
@@ -85,6 +90,7 @@ fn send_body(method: &str, path: &str, wire_q: &str, headers: Vec<(String, Strin
         }
     });
     let calls = log.lock().unwrap().clone();
+    crate::service::set_last_input(inputs_handle.lock().unwrap().first().cloned().unwrap_or_default());
     (status, calls, body)
 }
 
@@ -311,4 +317,66 @@ pub fn chunked(a: &[String]) -> Value {
     json!({"violates": !ok, "input": {"payload_bytes": n, "chunk_size": cs, "variant": variant},
            "expected": if variant == "complete" { "the backend reads all payload bytes and the body ends cleanly".to_owned() } else { "the body must NOT end successfully (error before or instead of a clean end)".to_owned() },
            "observed": {"status": st, "backend": calls, "response": rbody.chars().take(160).collect::<String>()}, "replay_args": ["chunked", a[0], a[1], a[2]]})
+}
+
+/// post-form <variant>: a browser-style POST form upload to /bkt, built and signed by a reference implementation of the AWS
+/// "Authenticating Requests in Browser-Based Uploads Using POST" document (policy JSON -> base64 -> V4 signature over the
+/// base64 text), through S3Service::call with SimpleAuth and the recording backend. Variants:
+///   valid               unexpired policy whose conditions hold                      -> must be accepted, stored exactly
+///   expired             policy expired on 2000-01-01, no other defect              -> must be refused
+///   key-condition       ["eq", "$key", "expected/name"] but the form's key differs  -> must be refused
+///   length-condition    ["content-length-range", 1, 4] but the file has 23 bytes   -> must be refused
+///   bad-signature       one hex digit of x-amz-signature changed                   -> must be refused
+///   other-secret        signed with a secret that is not the named key's            -> must be refused
+///   binary-file         valid; the file contains CR/LF runs, boundary look-alikes   -> stored exactly
+pub fn post_form(a: &[String]) -> Value {
+    let variant = a[0].as_str();
+    let (date, stamp) = now_stamp(0);
+    let region = "us-east-1";
+    let cred = format!("{AK}/{date}/{region}/s3/aws4_request");
+    let boundary = "----verifFormBoundary7MA4YWxk";
+    let key = "up/loaded name.bin";
+    let expiration = if variant == "expired" { "2000-01-01T00:00:00.000Z" } else { "2099-01-01T00:00:00.000Z" };
+    let mut conds = vec![format!("{{\"bucket\":\"bkt\"}}"), format!("{{\"x-amz-algorithm\":\"AWS4-HMAC-SHA256\"}}"),
+                         format!("{{\"x-amz-credential\":\"{cred}\"}}"), format!("{{\"x-amz-date\":\"{stamp}\"}}"), "[\"starts-with\",\"$x-amz-meta-tag\",\"\"]".to_owned()];
+    conds.push(if variant == "key-condition" { "[\"eq\",\"$key\",\"expected/name\"]".to_owned() } else { format!("[\"eq\",\"$key\",\"{key}\"]") });
+    conds.push(if variant == "length-condition" { "[\"content-length-range\",1,4]".to_owned() } else { "[\"content-length-range\",0,1048576]".to_owned() });
+    let policy_json = format!("{{\"expiration\":\"{expiration}\",\"conditions\":[{}]}}", conds.join(","));
+    let policy = base64_simd::STANDARD.encode_to_string(policy_json.as_bytes());
+    let skey = if variant == "other-secret" {
+        let k = hmac(b"AWS4someOtherSecretKeyThatIsNotTheProviders", date.as_bytes());
+        let k = hmac(&k, region.as_bytes()); let k = hmac(&k, b"s3"); hmac(&k, b"aws4_request")
+    } else { signing_key(&date, region, "s3") };
+    let mut sig = hex(&hmac(&skey, policy.as_bytes()));
+    if variant == "bad-signature" { let c = if sig.ends_with('0') { '1' } else { '0' }; sig.pop(); sig.push(c); }
+    let file: Vec<u8> = if variant == "binary-file" {
+        let mut f = b"line1\r\n\r\n--\r\n----verifFormBoundary7MA4YWx\r\n--".to_vec();
+        f.extend_from_slice(format!("\r\n--{}", &boundary[..boundary.len() - 1]).as_bytes());
+        f.extend_from_slice(&[0u8, 255, 13, 13, 10, 45, 45, 13]);
+        f
+    } else { b"exactly twenty-3 bytes!".to_vec() };
+    let mut body: Vec<u8> = Vec::new();
+    let fields: Vec<(&str, String)> = vec![("key", key.to_owned()), ("x-amz-algorithm", "AWS4-HMAC-SHA256".into()), ("x-amz-credential", cred.clone()),
+        ("x-amz-date", stamp.clone()), ("x-amz-meta-tag", "t1".into()), ("policy", policy.clone()), ("x-amz-signature", sig.clone())];
+    for (n, v) in &fields {
+        body.extend_from_slice(format!("--{boundary}\r\nContent-Disposition: form-data; name=\"{n}\"\r\n\r\n{v}\r\n").as_bytes());
+    }
+    body.extend_from_slice(format!("--{boundary}\r\nContent-Disposition: form-data; name=\"file\"; filename=\"f.bin\"\r\nContent-Type: application/octet-stream\r\n\r\n").as_bytes());
+    body.extend_from_slice(&file);
+    body.extend_from_slice(format!("\r\n--{boundary}--\r\n").as_bytes());
+    // frames of 1 KiB (the form's field part arrives in the first frame, the file may straddle frames)
+    let (st, calls, rbody) = send_body_framed("POST", "/bkt", "", vec![("host".into(), "localhost".into()),
+        ("content-type".into(), format!("multipart/form-data; boundary={boundary}")), ("content-length".into(), body.len().to_string())], body, 1024);
+    let reached = calls.iter().any(|c| c.starts_with("put_object@"));
+    let body_line = calls.iter().find(|c| c.starts_with("put_object.body")).cloned().unwrap_or_default();
+    let must_accept = variant == "valid" || variant == "binary-file";
+    let attributed = calls.iter().any(|c| c == &format!("put_object@{AK}"));
+    let mut fnv: u64 = 0xcbf29ce484222325;
+    for y in &file { fnv = (fnv ^ u64::from(*y)).wrapping_mul(0x100000001b3); }
+    let input = crate::service::last_input();
+    let mapped = input.contains(&format!("key: \"{key}\"")) && input.contains("bucket: \"bkt\"") && input.contains("\"tag\": \"t1\"");
+    let ok = if must_accept { reached && attributed && mapped && body_line.contains(&format!("bytes={} ", file.len())) && body_line.contains("end=clean") && body_line.contains(&format!("fnv={fnv:016x}")) } else { !reached };
+    json!({"violates": !ok, "input": {"variant": variant, "policy": policy_json, "key": key, "file_bytes": file.len()},
+           "expected": if must_accept { "accepted: put_object for the named access key with exactly the file's bytes" } else { "refused before the backend runs" },
+           "observed": {"status": st, "backend": calls, "input": input.chars().take(500).collect::<String>(), "response": rbody.chars().take(200).collect::<String>()}, "replay_args": ["post-form", a[0]]})
 }
